@@ -1,6 +1,5 @@
 import SC.Properties.C04
 import SC.Proofs.StdEqualFold
-import SC.Proofs.SrcCompare
 /-!
 # C02 — EqualFold is observationally identical to strings.EqualFold / bytes.EqualFold
 
@@ -69,22 +68,4 @@ theorem bad_byte_is_fffd (b : UInt8) (h : 0xF5 ≤ b ∨ (0x80 ≤ b ∧ b < 0xC
 example : A.EqualFold {} [0xFF] [0x80] = true ∧ A.EqualFold {pkg := .byt} [0xFF] [0xEF, 0xBF, 0xBD] = true ∧
     A.EqualFold {} [0xC3] [0xEF, 0xBF, 0xBD] = true := by decide +kernel
 example : A.EqualFold {} [0x4B] [0xE2, 0x84, 0xAA] = true ∧ A.EqualFold {} [0x61, 0x62] [0x61] = false := by decide +kernel
-/-- **Source level** (`Gen.Src.str`, the go/ssa form of `strcase.go` regenerated on every run): the program text of `strcase.EqualFold`
-    (`Compare(s, t) == 0`, with `Compare`'s byte loop and rune loop: `C04.source_compare`) returns `S.equalFold s t` for all byte strings
-    shorter than 2^62 bytes — and that value is what the transliteration of `strings.EqualFold` returns (`equalFold_eq_std`):
-    the property itself, with the strcase side stated about the regenerated source rather than a hand-written model.
-    (`strings.EqualFold` = `Std.equalFoldS` and `bytcase` are tied by the correspondence run.) -/
-theorem source_equalFold (s t : Bytes) (h : GoSsa.Heap)
-    (hls : s.length < 4611686018427387904) (hlt : t.length < 4611686018427387904) :
-    GoSsa.Ret Gen.Src.str false Gen.Src.str_EqualFold [.str s 0 0, .str t 1 0] h [.bool (S.equalFold s t)] h ∧
-    Std.equalFoldS s t = some (S.equalFold s t) := by
-  have hc := GoSsa.Str.Compare s t 0 0 1 0 h hls hlt
-  have hw := GoSsa.Str.EqualFold _ _ h h _ hc
-  have e : decide (A.Compare (GoSsa.cfg false) s t = 0) = A.EqualFold (GoSsa.cfg false) s t := by
-    unfold A.EqualFold
-    by_cases hh : A.Compare (GoSsa.cfg false) s t = 0 <;> simp [hh]
-  rw [e, equalFold_refines] at hw
-  refine ⟨hw, ?_⟩
-  have := (equalFold_eq_std (GoSsa.cfg false) s t).1
-  rwa [equalFold_refines] at this
 end C02
